@@ -34,7 +34,7 @@ def agents(prefix):
             parts.append("**%s** (engine strengthened by a helper agent on a branch, merged; notes/%s). %s" % (prop, os.path.basename(f), re.sub(r"\s*\n\s*", " ", txt)))
     return "\n\n".join(parts)
 
-blocks = {"ROUND7-TABLE": table("r7"), "ROUND8-TABLE": table("r8"), "ROUND9-TABLE": table("r9"),
+blocks = {"ROUND7-TABLE": table("r7"), "ROUND8-TABLE": table("r8"), "ROUND9-TABLE": table("r9"), "ROUND10-TABLE": table("r10"),
           "ROUND8-AGENTS": agents("h8"), "ROUND9-AGENTS": agents("h9")}
 for name, body in blocks.items():
     new = "<!-- %s -->\n%s\n<!-- /%s -->" % (name, body, name)
